@@ -85,6 +85,8 @@ class Run:
             for k, v in s.items():
                 if isinstance(v, (int, float)) and not isinstance(v, bool):
                     self.sum[k] = self.sum.get(k, 0) + v
+            if s.get("max_height_histogram"):
+                self.ctx.cov.setdefault("tree_heights", {})[cfg] = s["max_height_histogram"]
         return s
 
     def finish(self):
